@@ -9,7 +9,9 @@ import (
 	"fmt"
 	"io"
 	"math/big"
+	"crypto/sha256"
 	"reflect"
+	"testing/iotest"
 	"strconv"
 	"strings"
 
@@ -127,7 +129,24 @@ func describeTx(t *tx.Tx, direct *[]string) string {
 	return s
 }
 
-func withRest(r *bytes.Reader, body string) string {
+// mkReader wraps the input in one of four reader kinds, chosen by the input itself so that a replay
+// reproduces it: the decoders must consume exactly one object from ANY io.Reader (a reader that is
+// not an io.ByteReader, a one-byte-at-a-time reader, a hex decoder as blockscan uses), not only from
+// a *bytes.Reader.
+func mkReader(b []byte) io.Reader {
+	h := sha256.Sum256(b)
+	switch h[0] % 4 {
+	case 1:
+		return struct{ io.Reader }{bytes.NewReader(b)}
+	case 2:
+		return iotest.OneByteReader(bytes.NewReader(b))
+	case 3:
+		return hex.NewDecoder(strings.NewReader(hex.EncodeToString(b)))
+	}
+	return bytes.NewReader(b)
+}
+
+func withRest(r io.Reader, body string) string {
 	rest, _ := io.ReadAll(r)
 	return "ok " + body + " rest=" + hx(rest)
 }
@@ -164,7 +183,7 @@ func init() {
 	regRunner("C01", runC01)
 	regRunner("C02", runC02)
 	reg("varint.dec", Full, func(a []string) (string, []string) {
-		r := bytes.NewReader(unhx(a[0]))
+		r := mkReader(unhx(a[0]))
 		v, err := varint.FromReader(r)
 		if err != nil {
 			return "err", nil
@@ -194,7 +213,7 @@ func init() {
 		return fmt.Sprintf("ok %s size=%d", hx(v.Bytes()), v.Size()), direct
 	})
 	reg("in.dec", Full, func(a []string) (string, []string) {
-		r := bytes.NewReader(unhx(a[0]))
+		r := mkReader(unhx(a[0]))
 		i, err := tx.InputFromReader(r)
 		if err != nil {
 			return "err", nil
@@ -206,7 +225,7 @@ func init() {
 		return withRest(r, fmt.Sprintf("%s enc=%s size=%d", dumpIn(i), hx(i.Bytes()), i.Size())), direct
 	})
 	reg("out.dec", Full, func(a []string) (string, []string) {
-		r := bytes.NewReader(unhx(a[0]))
+		r := mkReader(unhx(a[0]))
 		o, err := tx.OutputFromReader(r)
 		if err != nil {
 			return "err", nil
@@ -218,7 +237,7 @@ func init() {
 		return withRest(r, fmt.Sprintf("%s enc=%s size=%d", dumpOut(o), hx(o.Bytes()), o.Size())), direct
 	})
 	reg("wit.dec", Full, func(a []string) (string, []string) {
-		r := bytes.NewReader(unhx(a[0]))
+		r := mkReader(unhx(a[0]))
 		w, err := tx.WitnessFromReader(r)
 		if err != nil {
 			return "err", nil
@@ -230,7 +249,7 @@ func init() {
 		return withRest(r, fmt.Sprintf("%s enc=%s size=%d", dumpWit(w), hx(w.Bytes()), w.Size())), direct
 	})
 	reg("tx.dec", Full, func(a []string) (string, []string) {
-		r := bytes.NewReader(unhx(a[0]))
+		r := mkReader(unhx(a[0]))
 		t, err := tx.FromReader(r)
 		if err != nil {
 			return "err", nil
@@ -241,7 +260,7 @@ func init() {
 	})
 	reg("stream.dec", Full, func(a []string) (string, []string) {
 		k, _ := strconv.Atoi(a[0])
-		r := bytes.NewReader(unhx(a[1]))
+		r := mkReader(unhx(a[1]))
 		var parts []string
 		for i := 0; i < k; i++ {
 			t, err := tx.FromReader(r)
@@ -253,7 +272,7 @@ func init() {
 		return withRest(r, strings.Join(parts, " / ")), nil
 	})
 	reg("hdr.dec", Full, func(a []string) (string, []string) {
-		r := bytes.NewReader(unhx(a[0]))
+		r := mkReader(unhx(a[0]))
 		h, err := blockheader.FromReader(r)
 		if err != nil {
 			return "err", nil
@@ -262,7 +281,7 @@ func init() {
 		return withRest(r, describeHeader(h, &direct)), direct
 	})
 	reg("blk.dec", Full, func(a []string) (string, []string) {
-		r := bytes.NewReader(unhx(a[0]))
+		r := mkReader(unhx(a[0]))
 		b, err := blocks.FromReader(r)
 		if err != nil {
 			return "err", nil
@@ -304,7 +323,11 @@ func init() {
 		cp := make([][32]byte, len(hs))
 		copy(cp, hs)
 		root := merkle.MerkleRootHashInternal(cp)
-		return "ok " + hx(root[:]), nil
+		var direct []string
+		if ref := refMerkle(hs); ref != root {
+			direct = append(direct, "merkle root differs from Bitcoin's rule (pair nodes, duplicate the last of an odd level): "+hx(ref[:]))
+		}
+		return "ok " + hx(root[:]), direct
 	})
 	reg("merkle.rootrpc", Full, func(a []string) (string, []string) {
 		hs := splitHashes(unhx(a[0]))
@@ -682,3 +705,20 @@ func runC02(r *Runner) string {
 
 var _ = binary.LittleEndian
 var _ = hex.EncodeToString
+
+// refMerkle is consensus/merkle.cpp ComputeMerkleRoot, written for the harness (internal byte order).
+func refMerkle(hs [][32]byte) [32]byte {
+	level := append([][32]byte{}, hs...)
+	for len(level) > 1 {
+		if len(level)%2 == 1 {
+			level = append(level, level[len(level)-1])
+		}
+		next := make([][32]byte, len(level)/2)
+		for i := range next {
+			a := sha256.Sum256(append(append([]byte{}, level[2*i][:]...), level[2*i+1][:]...))
+			next[i] = sha256.Sum256(a[:])
+		}
+		level = next
+	}
+	return level[0]
+}
